@@ -16,7 +16,9 @@ ASSUMPTIONS = ["nazalog.Assert has the default behaviour (log only)",
                "rtsp.BaseInSessionTimestampFilterFlag=false in the in-session op (AvPacketQueue belongs to C07)",
                "ops named c13x.* drive library surfaces that are not modelled (nazahttp, net/http, encoding/json): "
                "the model side is the constant 'alive'; they are covered by mutation testing only",
-               "memory exhaustion below Go's makeslice limit is outside the model"]
+               "memory exhaustion below Go's makeslice limit is outside the model",
+               "c13.udpsess hands datagrams synchronously to the callbacks nazanet.UdpConnection.RunLoop calls (verif hook) on sessions whose "
+               "UDP sockets are real loopback sockets; c13x.udpsess / c13x.pulludp send the same datagrams through the loopback interface"]
 FULL_OUTPUT = True
 TIMEOUT = 1500
 
@@ -386,6 +388,179 @@ def gen_insess(tier, rng):
                 s.append((ch, rtp(pt, rng.randrange(1, 6), rng.choice([0, 1000]), 5, rb(rng, rng.choice([1, 2, 3, 4, 6, 9])), pad=rng.choice([0, 0, 0, 1, 3]))))
         yield Case(sess_line(a, v, s), cls="sess-random")
 
+
+# ---------------------------------------------------------------- in-session with per-track transport state (UDP sockets / interleaved channels / nothing)
+def udp_line(acfg, vcfg, evs, op="c13.udpsess"):
+    return "%s %s %s %s %s %s %s %s" % (op, acfg[0], acfg[1], acfg[2], vcfg[0], vcfg[1], vcfg[2], ",".join(evs) if evs else "-")
+
+
+def pk(src, b):
+    return "%s:%s" % (src, hex_tok(b))
+
+
+def setup_evs(sa, sv):
+    evs = []
+    if sa:
+        evs.append("sa:u" if sa == "u" else "sa:t0.1")
+    if sv:
+        evs.append("sv:u" if sv == "u" else "sv:t2.3")
+    return evs
+
+
+def entry_points(sa, sv):
+    """the ways a packet can reach handleRtpPacket / handleRtcpPacket in that transport state"""
+    artp, artcp = (0, 1) if sa == "t" else (0, 0)
+    vrtp, vrtcp = (2, 3) if sv == "t" else (0, 0)
+    rtp_src = ["i%d" % c for c in sorted({artp, vrtp})]
+    rtcp_src = ["i%d" % c for c in sorted({artcp, vrtcp} - {artp, vrtp})]
+    if sa == "u":
+        rtp_src.append("ar")
+        rtcp_src.append("ac")
+    if sv == "u":
+        rtp_src.append("vr")
+        rtcp_src.append("vc")
+    return rtp_src, rtcp_src
+
+
+BODY_OF = {"pcma": b"\xd5\xd5", "aac": au_payload([b"\x21\x10"]), "h264": b"\x65\x01", "h265": b"\x26\x01\x02"}
+
+
+def gen_udpsess(tier, rng):
+    quick = tier == "quick"
+    # --- the whole transport matrix: every track state x every entry point for the RTP packet that initialises a
+    #     track's SSRC x every entry point for the SR that carries it (the reply goes to the RTCP connection / channel
+    #     of the SSRC's track, whatever the SR came in on)
+    for acfg, vcfg in ((A_PCMA, V_H264), (A_PCMA, V_NONE), (A_NONE, V_H264), (A_AAC, V_H265)):
+        tracks = []          # (payload type, ssrc, body)
+        if acfg[0] != "none":
+            tracks.append((acfg[2], 0x11, BODY_OF[acfg[0]]))
+        if vcfg[0] != "none":
+            tracks.append((vcfg[2], 0x22, BODY_OF[vcfg[0]]))
+        if all(t[0] != 0 for t in tracks):
+            tracks.append((0, 0x33, b"\xff"))      # the zero-value payload type of a track the SDP does not have
+        for sa in (None, "u", "t"):
+            for sv in (None, "u", "t"):
+                st = setup_evs(sa if acfg[0] != "none" else None, sv if vcfg[0] != "none" else None)
+                rs, cs = entry_points(sa if acfg[0] != "none" else None, sv if vcfg[0] != "none" else None)
+                for pt, ssrc, body in tracks:
+                    for r in rs:
+                        for c in cs:
+                            yield Case(udp_line(acfg, vcfg, st + [pk(r, rtp(pt, 1, 0, ssrc, body)), pk(c, rtcp_sr(ssrc, 1, 2, 3, 4, 5))]), cls="udp-matrix")
+                allr = [pk(rs[i % len(rs)], rtp(pt, 1, 0, ssrc, body)) for i, (pt, ssrc, body) in enumerate(tracks)]
+                alls = [pk(c, rtcp_sr(ssrc, 1, 2, 3, 4, 5)) for c in cs for _, ssrc, _ in tracks]
+                yield Case(udp_line(acfg, vcfg, st + allr + alls), cls="udp-matrix")
+                # datagrams for every socket, existing or not; SR before any RTP (ssrc 0 matches the zero-value audio ssrc)
+                a = rtp(tracks[0][0], 1, 0, 0x11, tracks[0][2])
+                yield Case(udp_line(acfg, vcfg, st + [pk("ac", rtcp_sr(0, 1, 2, 3, 4, 5)), pk("vc", rtcp_sr(0, 1, 2, 3, 4, 5)), pk("ar", a), pk("vr", a),
+                                                      pk("ac", rtcp_sr(0x11, 1, 2, 3, 4, 5)), pk("vc", rtcp_sr(0x11, 1, 2, 3, 4, 5)), pk("i1", rtcp_sr(0x11, 1, 2, 3, 4, 5))]), cls="udp-nosock")
+    # --- SETUP late, twice, with the other transport, for a track the SDP does not have
+    a, v = rtp(8, 1, 0, 0x11, b"\xd5\xd5"), rtp(96, 1, 0, 0x22, b"\x65\x01")
+    sa_, sv_ = rtcp_sr(0x11, 1, 2, 3, 4, 5), rtcp_sr(0x22, 1, 2, 3, 4, 5)
+    late = [
+        [pk("i0", a), "sa:u", pk("ac", sa_), "sv:u", pk("vc", sa_), "sa:t0.1", pk("i1", sa_), pk("ac", sa_)],
+        [pk("i0", a), pk("i0", v), "sv:u", pk("vc", sa_), pk("vc", sv_), "sa:u", pk("vc", sa_), pk("ac", sv_)],
+        ["sa:u", "sa:u", pk("ar", a), pk("ac", sa_), "sa:t4.5", pk("i5", sa_), pk("i4", v), pk("ac", sv_)],
+        ["sa:t0.1", "sv:t0.1", pk("i0", a), pk("i0", v), pk("i1", sa_), pk("i1", sv_)],
+        ["sa:t1.0", "sv:t3.1", pk("i1", a), pk("i3", v), pk("i0", sa_), pk("i1", sv_)],
+        ["sa:t7.7", "sv:u", pk("i7", a), pk("vc", sa_), pk("i7", sa_)],
+        ["sv:t200.255", pk("i200", v), pk("i255", sv_), pk("i0", a), "sa:u", pk("ac", sv_), pk("ac", sa_)],
+    ]
+    for evs in late:
+        yield Case(udp_line(A_PCMA, V_H264, evs), cls="udp-late")
+    yield Case(udp_line(A_PCMA, V_NONE, ["sv:u", pk("vr", a), "sv:t2.3", pk("i2", a), "sa:u", pk("ar", rtp(0, 1, 0, 0x33, b"\xff")), pk("ac", rtcp_sr(0x33, 1, 2, 3, 4, 5))]), cls="udp-late")
+    yield Case(udp_line(A_NONE, V_H264, ["sa:u", pk("ar", v), "sa:t0.1", "sv:u", pk("vr", rtp(0, 1, 0, 0x33, b"\xff")), pk("vc", rtcp_sr(0x33, 1, 2, 3, 4, 5))]), cls="udp-late")
+    yield Case(udp_line(A_NONE, V_NONE, ["sa:u", "sv:t0.1", pk("i0", rtp(0, 1, 0, 0x33, b"\xff")), pk("i1", rtcp_sr(0x33, 1, 2, 3, 4, 5)), pk("ac", sa_)]), cls="udp-late")
+    # --- receiver-report arithmetic over UDP (same sequence as sess-rr) and the interval arithmetic of the fraction
+    #     field: an SR interval in which only duplicate / late packets arrived (expected interval 0, received > 0),
+    #     one with nothing at all, one with loss, one after a wrap
+    seqs = [65534, 65535, 0, 1, 5, 3, 4, 40000, 2]
+    evs = ["sa:u", "sv:u"]
+    for i, sq in enumerate(seqs):
+        evs.append(pk("ar" if i % 3 else "vr", rtp(8, sq, 160 * i, 0x11, b"\xd5\xd5")))
+        if i % 2:
+            evs.append(pk("ac" if i % 4 == 1 else "vc", rtcp_sr(0x11, i, i << 16, 0, 0, 0)))
+    yield Case(udp_line(A_PCMA, V_H264, evs), cls="udp-rr")
+    for pattern in ([10, "sr", 10, 9, "sr", "sr", 11, "sr"], [10, "sr", 10, "sr"], [10, 11, "sr", 11, 11, 11, "sr", 20, "sr"],
+                    [65535, "sr", 65535, 65534, "sr", 0, "sr", 0, "sr"], ["sr", 5, "sr", "sr", 5, "sr", 4, "sr", 3, 2, 1, "sr"],
+                    [0, "sr", 30000, "sr", 30000, 0, "sr", 60000, "sr", 30000, "sr"]):
+        ilv, udp = [], ["sv:u"]
+        for k, x in enumerate(pattern):
+            if x == "sr":
+                ilv.append((3, rtcp_sr(0x22, k, k << 16, 0, 0, 0)))
+                udp.append(pk("vc", rtcp_sr(0x22, k, k << 16, 0, 0, 0)))
+            else:
+                ilv.append((2, rtp(96, x, 0, 0x22, b"\x41\x01")))
+                udp.append(pk("vr", rtp(96, x, 0, 0x22, b"\x41\x01")))
+        yield Case(sess_line(A_NONE, V_H264, ilv), cls="sess-rr-interval")
+        yield Case(udp_line(A_NONE, V_H264, udp), cls="udp-rr-interval")
+    for _ in range(20 if quick else 3000):
+        ilv, udp, cur = [], ["sa:u"], rng.randrange(65536)
+        for k in range(rng.randrange(4, 14)):
+            if rng.random() < 0.4:
+                ilv.append((1, rtcp_sr(0x11, k, k << 16, 0, 0, 0)))
+                udp.append(pk("ac", rtcp_sr(0x11, k, k << 16, 0, 0, 0)))
+            else:
+                cur = (cur + rng.choice([0, 0, 0, -1, -2, 1, 1, 2, 100, 32767, 32768, 40000])) & 0xffff
+                ilv.append((0, rtp(8, cur, 0, 0x11, b"\xd5")))
+                udp.append(pk("ar", rtp(8, cur, 0, 0x11, b"\xd5")))
+        yield Case(sess_line(A_PCMA, V_NONE, ilv), cls="sess-rr-interval")
+        yield Case(udp_line(A_PCMA, V_NONE, udp), cls="udp-rr-interval")
+    # --- random event sequences: SETUPs anywhere, valid / mutated / truncated packets from any entry point
+    srcs = ["i0", "i0", "i1", "i2", "i3", "i7", "ar", "ac", "vr", "vc", "ar", "ac", "vr", "vc"]
+    sts = ["sa:u", "sv:u", "sa:u", "sv:u", "sa:t0.1", "sv:t2.3", "sa:t2.3", "sv:t0.1", "sa:t0.0", "sv:t9.9"]
+    for _ in range(300 if quick else 40000):
+        acfg, vcfg = rng.choice([(A_PCMA, V_H264), (A_AAC, V_H265), (A_PCMA, V_NONE), (A_NONE, V_H264), (A_AAC, V_H264)])
+        evs = [rng.choice(sts) for _ in range(rng.choice([0, 1, 1, 2, 2]))]
+        for _ in range(rng.randrange(1, 9)):
+            r = rng.random()
+            if r < 0.12:
+                evs.append(rng.choice(sts))
+                continue
+            src = rng.choice(srcs)
+            if r < 0.55:
+                pt, ssrc, body = rng.choice([(acfg[2], 0x11, BODY_OF.get(acfg[0], b"\x01")), (vcfg[2], 0x22, BODY_OF.get(vcfg[0], b"\x01")), (0, 0x33, b"\xff"), (0, 0, b"\x00")])
+                b = rtp(pt, rng.randrange(1, 5), 0, ssrc, body)
+            else:
+                b = rtcp_sr(rng.choice([0x11, 0x22, 0x33, 0, 0x44]), 1, 2, 3, 4, 5)
+                if rng.random() < 0.15:
+                    b = b[:rng.choice([0, 1, 2, 3, 4, 8, 27])]
+            if rng.random() < 0.15:
+                b = mutate(rng, b, hdr=12)
+            evs.append(pk(src, b))
+        yield Case(udp_line(acfg, vcfg, evs), cls="udp-random")
+    # --- end to end: the datagrams really travel through the loopback interface into the UdpConnection.RunLoop
+    #     goroutines (a panic there is the death of the process)
+    e2e = [(A_PCMA, V_H264, ["sv:u", pk("vr", a), pk("vc", sa_)]),
+           (A_PCMA, V_H264, ["sa:u", pk("ar", v), pk("ac", sv_)]),
+           (A_PCMA, V_H264, ["sa:t0.1", "sv:u", pk("i0", a), pk("vc", sa_)]),
+           (A_PCMA, V_NONE, ["sa:u", pk("ar", rtp(0, 1, 0, 0x33, b"\xff")), pk("ac", rtcp_sr(0x33, 1, 2, 3, 4, 5))]),
+           (A_PCMA, V_H264, ["sa:u", "sv:u", pk("ar", a), pk("vr", v), pk("ac", sa_), pk("vc", sv_), pk("ac", sv_), pk("vc", sa_), pk("ac", b"\x80"), pk("vr", b"")]),
+           (A_AAC, V_H265, ["sv:u", pk("vr", rtp(98, 1, 0, 0x22, h265_ap([b"\x40\x01\x0c", b"\x42\x01\x01"]))), pk("vc", rtcp_sr(0x22, 1, 2, 3, 4, 5)), pk("vr", rtp(97, 1, 0, 0x11, au_payload([b"\x21"]))), pk("vc", rtcp_sr(0x11, 1, 2, 3, 4, 5))])]
+    for acfg, vcfg, evs in e2e:
+        yield Case(udp_line(acfg, vcfg, evs, op="c13x.udpsess"), cls="x-udpsess")
+    for _ in range(6 if quick else 300):
+        evs = [rng.choice(["sa:u", "sv:u"])] + [rng.choice(["sa:u", "sv:u", "sa:t0.1"]) for _ in range(rng.randrange(2))]
+        for _ in range(rng.randrange(2, 6)):
+            src = rng.choice(["ar", "ac", "vr", "vc", "i0", "i1"])
+            b = rng.choice([a, v, sa_, sv_, rtp(0, 1, 0, 0x33, b"\xff"), rtcp_sr(0x33, 1, 2, 3, 4, 5), sa_[:9]])
+            evs.append(pk(src, b))
+        yield Case(udp_line(A_PCMA, V_H264, evs, op="c13x.udpsess"), cls="x-udpsess")
+
+    # --- a real rtsp.PullSession over UDP against a scripted origin: the origin (or anybody who can send to the
+    #     client ports) sends these datagrams to the RTP / RTCP port of the first SETUP
+    pull = [(A_PCMA, V_NONE, [pk("r", a), pk("c", sa_), pk("r", rtp(0, 1, 0, 0x33, b"\xff")), pk("c", rtcp_sr(0x33, 1, 2, 3, 4, 5))]),
+            (A_NONE, V_H264, [pk("r", v), pk("c", sv_), pk("r", rtp(0, 1, 0, 0x33, b"\xff")), pk("c", rtcp_sr(0x33, 1, 2, 3, 4, 5)), pk("c", rtcp_sr(0, 1, 2, 3, 4, 5))]),
+            (A_PCMA, V_H264, [pk("r", v), pk("c", sv_), pk("r", a), pk("c", sa_), pk("c", sa_[:5]), pk("r", b"\x80")]),
+            (A_AAC, V_H265, [pk("c", rtcp_sr(0, 1, 2, 3, 4, 5)), pk("r", rtp(97, 1, 0, 0x11, au_payload([b"\x21"]))), pk("c", sa_), pk("r", rtp(98, 1, 0, 0x22, b"\x26\x01\x02")), pk("c", sv_)])]
+    for acfg, vcfg, evs in pull:
+        yield Case(udp_line(acfg, vcfg, evs, op="c13x.pulludp"), cls="x-pulludp")
+    for _ in range(4 if quick else 200):
+        acfg, vcfg = rng.choice([(A_PCMA, V_NONE), (A_NONE, V_H264), (A_PCMA, V_H264)])
+        evs = []
+        for _ in range(rng.randrange(2, 7)):
+            b = rng.choice([a, v, sa_, sv_, rtp(0, 1, 0, 0x33, b"\xff"), rtcp_sr(0x33, 1, 2, 3, 4, 5), sa_[:9], mutate(rng, sa_), mutate(rng, v, 12)])
+            evs.append(pk(rng.choice(["r", "c"]), b))
+        yield Case(udp_line(acfg, vcfg, evs, op="c13x.pulludp"), cls="x-pulludp")
 
 def mutate(rng, b, hdr=0):
     """one structural mutation: truncate, set a byte / 16-bit field to an extreme, flip, insert, delete"""
@@ -1026,12 +1201,25 @@ def gen_sessions(tier, rng):
 
 
 def gen_cases(tier, rng):
-    for g in (gen_rtp, gen_rtcp, gen_insess, gen_ilv, gen_ws, gen_ps, gen_rtmpc, gen_text, gen_sessions):
+    for g in (gen_rtp, gen_rtcp, gen_insess, gen_udpsess, gen_ilv, gen_ws, gen_ps, gen_rtmpc, gen_text, gen_sessions):
         for c in g(tier, rng):
             yield c
 
 
 # ---------------------------------------------------------------- evaluation
+def tok_len(tok):
+    """length of a bytes token without materialising r<len>.<seed> parts (the WebSocket cap cases are 1 MiB each)"""
+    n = 0
+    for part in tok.split("+"):
+        if part == "-":
+            continue
+        if part[0] == "r":
+            n += int(part[1:].split(".")[0])
+        else:
+            n += len(part) // 2
+    return n
+
+
 def outcome_class(out):
     if out.startswith(("panic@", "crash@")):
         return out
@@ -1048,11 +1236,19 @@ def nontrivial(c, out):
         o = out.split(" ")
         evs = o[1] if len(o) > 1 else ""
         return "%s|%s|av%d|rr%d" % (shape, outcome_class(out), min(evs.count("av:"), 4), min(evs.count("rr:"), 3))
+    if f[0] == "c13.udpsess":
+        o = out.split(" ")
+        evs = o[1] if len(o) > 1 else ""
+        heads = [e.split(":")[0] + (":" + e.split(":")[1][:1] if e[0] == "s" else "") for e in f[7].split(",")] if f[7] != "-" else []
+        return "%s|%s/%s|%s|%s|rr%d|rru%d|ns%d|es%d|av%d" % (c.cls, f[1], f[4], ",".join(heads[:6]), outcome_class(out), min(evs.count("rr:"), 3),
+                                                          min(evs.count("rru:"), 3), min(evs.count("nosock"), 2), min(evs.count("errsetup"), 2), min(evs.count("av:"), 3))
     if f[0] == "c13.ps":
         o = out.split(" ")
         evs = o[1] if len(o) > 1 else ""
         return "%s|%s|%s|k%d|e%d|av%d" % (c.cls, f[1], outcome_class(out), min(evs.count("k"), 6), min(evs.count("e"), 4), min(evs.count("av:"), 6))
-    n = len(tok_bytes(f[-1])) if len(f[-1]) < 4000 else 9999
+    if f[0] in ("c13x.udpsess", "c13x.pulludp"):
+        return "%s|%s/%s|%s|%d" % (f[0], f[1], f[4], outcome_class(out), min(f[7].count(","), 8))
+    n = tok_len(f[-1]) if len(f[-1]) < 4000 else 9999
     return "%s|%s|%s|%d" % (f[0], shape, outcome_class(out), min(n, 40))
 
 
@@ -1092,6 +1288,22 @@ def neighbors(c, rng):
                 yield "c13.ps %s %s" % (f[1], ",".join(items[:k] + [hex_tok(b[:t])]))
             for _ in range(10):
                 yield "c13.ps %s %s" % (f[1], ",".join(items[:k] + [hex_tok(mutate(rng, b, 12))] + items[k + 1:]))
+        return
+    if f[0] in ("c13.udpsess", "c13x.udpsess", "c13x.pulludp"):
+        if f[7] == "-":
+            return
+        items = f[7].split(",")
+        for k in range(len(items)):
+            yield " ".join(f[:7]) + " " + (",".join(items[:k] + items[k + 1:]) or "-")
+            src, p = items[k].split(":")
+            if src in ("sa", "sv"):
+                continue
+            b = tok_bytes(p)
+            for t in (0, 1, 3, 4, 12, 13, 27, 28):
+                if t < len(b):
+                    yield " ".join(f[:7]) + " " + ",".join(items[:k] + ["%s:%s" % (src, hex_tok(b[:t]))] + items[k + 1:])
+            for _ in range(10):
+                yield " ".join(f[:7]) + " " + ",".join(items[:k] + ["%s:%s" % (src, hex_tok(mutate(rng, b, 12)))] + items[k + 1:])
         return
     if f[0] == "c13.insess":
         if f[7] == "-":
